@@ -145,6 +145,7 @@ func (v objectValidator) requiredKeysString() string {
 	for k := range v.requiredKeys {
 		keys = append(keys, k)
 	}
+	sort.Strings(keys) // a stable message: map iteration order is random
 	return strings.Join(keys, ", ")
 }
 
